@@ -47,6 +47,18 @@ def check(spec):
         rad = abs(np.dot(v, rh)) / max(np.linalg.norm(v), 1e-300)
         if rad > 0.02:
             viol.append({'id': nm + '-not-transverse', 'observed': float(rad)})
+    # the same request on an object that has computed another frequency before must give the same field (the far-field
+    # comparison above is made on a fresh object only; every frequency of a sweep is entitled to it)
+    if not viol:
+        m2 = solve(dict(spec, f=spec['f'] * 0.93))
+        m2.compute_near_field(list(pt), [1, 1, 1], [1, 1, 1], pwr=100.0)
+        m2.f = spec['f']
+        m2.compute()
+        m2.compute_near_field(list(pt), [1, 1, 1], [1, 1, 1], pwr=100.0)
+        E2, H2 = np.array(m2.e_field[0]), np.array(m2.h_field[0])
+        if np.linalg.norm(E2 - E) > 1e-9 * np.linalg.norm(E) or np.linalg.norm(H2 - H) > 1e-9 * np.linalg.norm(H):
+            viol.append({'id': 'near-field-after-a-frequency-change-differs-from-a-fresh-run',
+                         'observed': [float(np.linalg.norm(E2 - E) / np.linalg.norm(E)), float(np.linalg.norm(H2 - H) / np.linalg.norm(H))]})
     # recorded finding C04-unequal-junction: junctions of segments of unequal length
     uneq = any(abs(p.segs[0].seg_len / p.segs[1].seg_len - 1) > 0.01 for p in m.pulses if p.geo[0] is not p.geo[1])
     if uneq:
